@@ -14,7 +14,7 @@ import os
 from .. import common
 
 OPS = [';', '&&', '||']
-DECOYS = ["';'", "'&&'", "\;", '"||"', "'#'"]
+DECOYS = ["';'", "'&&'", "\;", '"||"', "'#'", '"q\\" && z"', '"a\\"" ";"']
 
 
 def ref(ops, stats):
